@@ -20,6 +20,7 @@
     penalties, no consistent one);
   * reads named `<id>_<group>` for `--read_group read_id:_` with 3-5 group labels, polyA tails;
   * multimappers: secondary alignments of the same read name on another chromosome and on the same one.
+`build(rng, chrom_names=EQUAL_KEY_CHROMS)` is the same world on contigs with equal natural sort keys (audit G8).
 Everything random comes from the `random.Random` passed in.
 """
 import random
@@ -28,6 +29,11 @@ from gen import synth
 
 GROUP_POOL = ["gA", "gB", "k7", "Zeta", "m10", "m9", "x", "liver", "brain", "ctl"]
 CHR_POOL = ["chr1", "chr2", "chr10", "chrX", "chr3", "chr21"]
+# hypothesis audit G8: contigs whose natural sort keys (`merge_files`: digits as numbers, text lower-cased) are EQUAL -
+# chr1, Chr1, chr01, chr001 all have the key ["chr", 1, ""].  `merge_order_of_perm` (C06) assumes distinct keys; the
+# merged order among equal keys is the order `get_chr_list` hands over (by length, stable on the FASTA order), so the
+# outputs must still not depend on threads / hash seed / memory mode.  Passed as `build(rng, chrom_names=...)`.
+EQUAL_KEY_CHROMS = ["chr1", "Chr1", "chr01", "chr001", "chr2"]
 
 
 def _exons(rng, start, n, lmin=150, lmax=350, imin=300, imax=1200):
